@@ -91,6 +91,14 @@ class Adapter:
             if json.dumps(g._to_dict(), default=str) != s1:
                 div('interleaved_generation_differs', {'graph': nm})
                 break
+        # regenerating a graph in place (attackers attached before and after) is generating it again
+        if not res['div']:
+            g1.regenerate_graph()
+            g1.attach_attackers()
+            calculate_viability_and_necessity(g1)
+            res['steps'] += 1
+            if json.dumps(g1._to_dict(), default=str) != s1:
+                div('regenerated_graph_differs', {})
         if json.dumps(m._to_dict(), sort_keys=True, default=str) != snap_model:
             div('model_changed', {})
         if ctx.spec != snap_spec or ctx.lang_graph._lang_spec != snap_spec:
